@@ -28,6 +28,11 @@ func (g *Gen) lvalue(e *Env, x Expr) []leafRef {
 		for _, lf := range g.L.leaves(t, 0, "") {
 			out = append(out, leafRef{lf.Key, Add(a, IntLit(lf.Off)), lf.Sort, lf.Type})
 		}
+		if g.L.layer1 && isBigInt(t) {
+			// layer 1: the value of a heap-form BigInt lives in its math/big object
+			h := g.load(e.old0(), "BigInt._inner", a, SInt)
+			out = append(out, leafRef{"MathBig.val", h, SInt, nil})
+		}
 		return out
 	}
 	switch x := x.(type) {
